@@ -1678,24 +1678,36 @@ def machine(v, tag, want_op, nconf=4, bfs_budget=700000, sim_num=2000, sim_depth
 
     trans = {}
     nbeh = 0
-    for mode, fn in (("bfs", bfs), ("sim", sim)):
-        for k, res in enumerate(vlib.parallel(fn, list(range(nconf)), jobs=nconf if mode == "sim" else 2)):
-            if res.errors:
-                m_ = res.out.find("Error:")
-                raise ToolError("Machine(%s,%s,%d): invariant violated in the specification / error:\n%s" % (tag, mode, k, res.out[m_:m_ + 3000]))
-            v.add_tlc(res, "tlc -config MC.cfg MCMachine.tla (Machine, %s, %d calls%s)"
-                      % (mode, len(ops), (", depth %d" % depth) if mode == "bfs" else (", -simulate num=%d -depth %d" % (sim_num // nconf, sim_depth + 2))))
-            gens = res.tagged("GEN")
-            if not gens:
-                raise ToolError("Machine(%s,%s,%d): TLC printed no transitions" % (tag, mode, k))
+    import threading
+    lock = threading.Lock()
+
+    def digest(mode, fn, k):
+        """runs one TLC job and folds what it printed into `trans` at once (the raw output can be hundreds of MB)"""
+        res = fn(k)
+        if res.errors:
+            m_ = res.out.find("Error:")
+            raise ToolError("Machine(%s,%s,%d): invariant violated in the specification / error:\n%s" % (tag, mode, k, res.out[m_:m_ + 3000]))
+        gens = res.tagged("GEN")
+        res.out = ""
+        if not gens:
+            raise ToolError("Machine(%s,%s,%d): TLC printed no transitions" % (tag, mode, k))
+        nb = 0
+        with lock:
             if mode == "bfs":
                 for g in gens:
                     trans.setdefault(json.dumps([g[1], g[2]]), (g[1], g[2], g[3]))
             else:
                 for g in gens:
-                    nbeh += 1
+                    nb += 1
                     for st in g[1]:
                         trans.setdefault(json.dumps([st[0], st[1]]), (st[0], st[1], st[2]))
+        return res, nb
+
+    for mode, fn in (("bfs", bfs), ("sim", sim)):
+        for res, nb in vlib.parallel(lambda k, mode=mode, fn=fn: digest(mode, fn, k), list(range(nconf)), jobs=4 if mode == "sim" else 2):
+            nbeh += nb
+            v.add_tlc(res, "tlc -config MC.cfg MCMachine.tla (Machine, %s, %d calls%s)"
+                      % (mode, len(ops), (", depth %d" % depth) if mode == "bfs" else (", -simulate num=%d -depth %d" % (sim_num // nconf, sim_depth + 2))))
     never = sorted(set(ops) - {t[0] for t in trans.values()})
     if never:       # vacuity guard: every modelled call must have been taken at least once
         raise ToolError("Machine(%s): calls never taken by TLC: %s" % (tag, never))
@@ -1774,7 +1786,7 @@ def _with_machine(prop_id):
                 apalache_laws(v, "Law2")
         thorough = v.tier == "thorough"
         before = len(v.violations)
-        n, nbeh = machine(v, "m", lambda o: judged(o) or o in movers, judged=judged, nconf=12 if thorough else 4, bfs_budget=3000000 if thorough else 700000,
+        n, nbeh = machine(v, "m", lambda o: judged(o) or o in movers, judged=judged, nconf=10 if thorough else 4, bfs_budget=1700000 if thorough else 700000,
                           sim_num=24000 if thorough else 2000, sim_depth=40 if thorough else 25,
                           only_range=(aspect == "range"))
         v.cov["rule"] += (" (M) Machine.tla: the library as a free-running register machine restricted to this property's calls - TLC "
